@@ -5,6 +5,9 @@ from pyvc.stubhelpers import param_names
 
 
 IMPLICIT = []  # stack of blocks under implicit construction (xdsl.builder stub)
+ALL_OPS = []  # every op constructed in this run, in creation order (the "heap" a use-scan looks at)
+EAGER = [False]  # contracts switch this on to have replace_uses_with_if / replace_all_uses_with PERFORMED (by a scan
+#                  over ALL_OPS, i.e. over all current uses, exactly what xDSL's use-lists hold) and not only recorded
 
 
 class Attribute:
@@ -85,14 +88,23 @@ class SSAValue:
         return self.owner
 
     def replace_uses_with_if(self, value, predicate):
-        """recorded, not performed: the contract reads `replaced` to see which value users now see"""
+        """recorded (the contract reads `replaced` to see which value users now see); performed only in EAGER mode"""
         self.replaced = (value, predicate)
+        if EAGER[0]:
+            for o in list(ALL_OPS):
+                if getattr(o, "erased", False):
+                    continue
+                k = 0
+                for v in list(o.operands):
+                    if v is self and (predicate is None or predicate(Use(o, k))):
+                        o.operands[k] = value
+                    k += 1
 
     def replace_all_uses_with(self, value):
-        self.replaced = (value, None)
+        self.replace_uses_with_if(value, None)
 
     def replace_by(self, value):
-        self.replaced = (value, None)
+        self.replace_uses_with_if(value, None)
 
 
 class OpResult(SSAValue):
@@ -148,6 +160,7 @@ class Operation:
         self.properties = {}
         self.regions = []
         self.parent = None
+        ALL_OPS.append(self)
         if len(IMPLICIT) > 0:
             IMPLICIT[-1].add_op(self)
 
@@ -237,6 +250,15 @@ class Operation:
     def successors(self):
         return []
 
+    def is_ancestor(self, op):
+        """as xdsl: True when `op` is self or nested (at any depth) inside self"""
+        o = op
+        while o is not None:
+            if o is self:
+                return True
+            o = o.parent_op()
+        return False
+
     def get_toplevel_object(self):
         o = self
         while o.parent_op() is not None:
@@ -255,6 +277,24 @@ class Block:
     def add_op(self, op):
         op.parent = self
         self.ops.append(op)
+
+    def insert_arg(self, arg_type, index):
+        a = BlockArgument(fresh_int("barg"), arg_type, self)
+        l = list(self.args)
+        l.insert(index, a)
+        self.args = tuple(l)
+        return a
+
+    def clone_into(self, value_mapper):
+        """a new block with fresh arguments (entered into the mapper) and clones of all ops, in order"""
+        nb = Block([], [a.type for a in self.args])
+        k = 0
+        for a in self.args:
+            value_mapper[a] = nb.args[k]
+            k += 1
+        for o in self.ops:
+            nb.add_op(o.clone(value_mapper))
+        return nb
 
     def add_ops(self, ops):
         for o in ops:
